@@ -124,6 +124,7 @@ type sim struct {
 	hitShapes  map[string]bool
 	panicShape map[string]string // command name -> shape key of its last apply panic
 	extraWatch []string
+	batchAbortHazard bool
 	hllKeys    map[string]bool // keys that took an accepted PFADD: their string view is a cache image
 
 	base  *dumpT // dump valid for the current state (nil = stale)
@@ -136,6 +137,30 @@ type sim struct {
 }
 
 var noRecover = os.Getenv("VERIF_FUZZ_NORECOVER") != ""
+var allowOOM = os.Getenv("VERIF_FUZZ_ALLOW_OOM") != ""
+
+// knownOOM recognises the one argument shape that is known to make the
+// process allocate without bound (known finding alloc:json.set /
+// alloc:json.arrappend: sjson pads an array up to the index named in the path;
+// an index of 2^32 asks for > 20 GB). Sizes up to 5e7 are still sent (they
+// allocate hundreds of MiB and are reported); larger ones would only kill the
+// worker again and again, so they are skipped unless VERIF_FUZZ_ALLOW_OOM=1.
+func knownOOM(args [][]byte) bool {
+	if allowOOM || len(args) < 3 || !strings.HasPrefix(strings.ToLower(string(args[0])), "json.") {
+		return false
+	}
+	for _, a := range args[2:] {
+		if len(a) > 64 {
+			continue
+		}
+		for _, seg := range strings.Split(string(a), ".") {
+			if len(seg) >= 9 && strings.Trim(seg, "0123456789") == "" {
+				return true
+			}
+		}
+	}
+	return false
+}
 var liveJournal = os.Getenv("VERIF_REPLAY") != "" || os.Getenv("VERIF_FUZZ_JOURNAL") != ""
 
 func Run(c *core.RunCtx) {
@@ -486,8 +511,16 @@ func (s *sim) bubble() {
 		case 2:
 			s.stepValid()
 		case 3:
-			s.invalidate()
-			s.restart(t.Bool(g.graceful), "quiescent")
+			s.quiesce()
+			d0 := s.base
+			gr := t.Bool(g.graceful)
+			if s.restart(gr, "quiescent") {
+				s.takePanics()
+				d2 := s.dump()
+				if df := s.diffRestart(d0, d2); df != "" {
+					s.violate("replay-diverged", s.replayKey("", false), "after a restart at a quiescent instant (graceful=%v) the node serves different data: %s", gr, df)
+				}
+			}
 		case 4:
 			s.stepPipeline()
 		}
@@ -812,6 +845,10 @@ func (s *sim) stepMutated() {
 		return
 	}
 	args := toBytes(as)
+	if knownOOM(args) {
+		c.Count("skipped_known_unbounded_allocation_shape", 1)
+		return
+	}
 	name := string(args[0])
 	s.addWatch(as)
 	s.quiesce()
@@ -910,6 +947,9 @@ func (s *sim) stepMutated() {
 		reachedApply = s.applied() != ap0
 	}
 	if reachedApply {
+		if isBatchable(name) {
+			s.batchAbortHazard = true
+		}
 		c.Probe("error_reply_from_apply_side")
 		if snapFired {
 			c.Probe("error_before_snapshot")
@@ -942,8 +982,8 @@ func (s *sim) stepMutated() {
 			s.hitShapes[shape] = true
 		}
 		d2 := s.dump()
-		if df := diffDump(d0, d2); df != "" {
-			s.violate("replay-diverged", replayKey(name, reachedApply), "%s -> %s; after a %s restart the node serves different data: %s", sent, o.text(), map[bool]string{true: "graceful", false: "kill -9"}[graceful], df)
+		if df := s.diffRestart(d0, d2); df != "" {
+			s.violate("replay-diverged", s.replayKey(name, reachedApply), "%s -> %s; after a %s restart the node serves different data: %s", sent, o.text(), map[bool]string{true: "graceful", false: "kill -9"}[graceful], df)
 			s.hitShapes[shape] = true
 		}
 		s.base, s.baseR = d2, s.rawSnap()
@@ -998,18 +1038,42 @@ func hasProcPanic(ps []panicRec) bool {
 	return false
 }
 
-// replayKey names a divergence after restart by the command that errored.
-// "set", "setex", "del" and "hmset" are the commands the apply loop batches
-// into the shared write batch.
-func replayKey(name string, reachedApply bool) string {
-	n := strings.ToLower(name)
-	switch n {
+// replayKey names a divergence after restart. "set", "setex", "del" and
+// "hmset" are the commands the apply loop batches into the shared write batch;
+// when one of them failed on the apply side earlier in the run, the known
+// finding replay:batchable-write-error (the abort of the shared batch drops
+// acknowledged neighbours when batch boundaries differ on replay) is present.
+func (s *sim) replayKey(name string, reachedApply bool) string {
+	if s.batchAbortHazard {
+		return "replay:batchable-write-error"
+	}
+	if !reachedApply {
+		return "replay:history"
+	}
+	return "replay:" + nameKey(name)
+}
+
+func isBatchable(name string) bool {
+	switch strings.ToLower(name) {
 	case "set", "setex", "del", "hmset":
-		if reachedApply {
-			return "replay:batchable-write-error"
+		return true
+	}
+	return false
+}
+
+// diffRestart compares the dumps before and after a restart. The view of keys
+// that hold hyperloglog data is served from a cache that a restart empties
+// (and that plain string writes on the same key bypass): not this property's
+// business, so those entries are left out.
+func (s *sim) diffRestart(a, b *dumpT) string {
+	a2, b2 := a.clone(), b.clone()
+	for k := range s.hllKeys {
+		for _, e := range []string{"get " + k, "bitcount " + k} {
+			delete(a2.text, e)
+			delete(b2.text, e)
 		}
 	}
-	return "replay:" + nameKey(n)
+	return diffDump(a2, b2)
 }
 
 func nameKey(name string) string {
